@@ -32,6 +32,11 @@ class TooManyPaths(Exception):
     pass
 
 
+class Infeasible(Exception):
+    """raised by a hook (on_edge, on_node, split ...) when the facts of the current path are contradictory: the
+    path is dropped, its siblings are not"""
+
+
 class Walker:
     loop_bound = 1
     max_paths = 50000
@@ -65,6 +70,11 @@ class Walker:
         return None
 
     def ev_extra(self, fn, node, st):
+        return None
+
+    def split(self, fn, node, st):
+        """case split before an element: return None, or a list of alternative states (copies of st that each know
+        more); the element is then evaluated once under every alternative"""
         return None
 
     # ------------------------------------------------------------------ evaluator
@@ -144,6 +154,12 @@ class Walker:
         return out
 
     def _walk(self, fn, cfg, b, start, st, visits, out):
+        try:
+            self._walk0(fn, cfg, b, start, st, visits, out)
+        except Infeasible:
+            return
+
+    def _walk0(self, fn, cfg, b, start, st, visits, out):
         while True:
             blk = cfg.blocks[b]
             if start == 0:
@@ -172,6 +188,13 @@ class Walker:
                                 self.on_dtor(fn, e2, st)
                         self._finish(st, rv, out)
                         return
+                    alts = self.split(fn, n, st)
+                    if alts is not None:
+                        if not alts:
+                            return  # no consistent alternative: the path is infeasible
+                        for a in alts[1:]:
+                            self._walk(fn, cfg, b, i - 1, a, visits, out)
+                        st = alts[0]
                     g = self.inline(fn, n, st) if 'ck' in n else None
                     if g is not None:
                         self.on_inline(fn, n, g, st)
@@ -221,10 +244,16 @@ class Walker:
                     return
                 for t, s in nexts[1:]:
                     st2 = st.copy()
-                    self._take(fn, ci, t == 0, st2, lop)
+                    try:
+                        self._take(fn, ci, t == 0, st2, lop)
+                    except Infeasible:
+                        continue
                     self._walk(fn, cfg, s, 0, st2, visits, out)
                 t, s = nexts[0]
-                self._take(fn, ci, t == 0, st, lop)
+                try:
+                    self._take(fn, ci, t == 0, st, lop)
+                except Infeasible:
+                    return
                 b, start = s, 0
                 continue
             live = [s for s in succ if s is not None]
